@@ -17,6 +17,12 @@ CLAIMS = {
  "C04": dict(cat="model_checking", ref="6/C04", tech="TLC model checking of SluFactor!ZeroPivot/SingularReported + trace validation of singular ?gssv executions (exact replay to the first column without candidate, Hall-condition oracle)",
    text="Design level: for all small matrices TLC shows info=i iff column i is the first without nonzero candidate and that structural singularity always ends there. Conformance: generated exactly singular matrices (empty lines, Hall violations, duplicated lines) through ?gssv; TLC replays the exact elimination along the recorded pivots and checks info, the leading block, B untouched; Hall's condition decides structural singularity independently of values.",
    note="Exact-cancellation cases are decidable only on D2 (power-of-two pivots before the deficient column). Two known findings (crash on structurally singular input; rounding hides a Hall violation) are listed in known_findings.jsonl."),
+ "C07": dict(cat="model_checking", ref="6/C07", tech="TLC model checking of SluMem (regions ordered/disjoint, capacity, content-neutral growth) + TLC trace validation of allocator events and bit-for-bit comparison of runs that differ only in how storage was obtained",
+   text="SluMem (the allocator transcribed action for action, both memory models) is model-checked for every workspace length in one-word steps; per generated matrix the harness runs ?gssvx/?gsisx with library allocation (fill 30 reference; fill 1,2,3 forcing 0..many expansions) and with caller workspaces of several sufficient lengths and both alignments; TLC validates every allocator event against the safety layer and demands identical permutations / factor bytes / nnz, expansions = number of granted growth requests, mem_usage = the QuerySpace formula of the returned arrays.",
+   note="With vendor BLAS bit-for-bit agreement is demanded on exact (D2) scenarios only (alignment-dependent kernels may round differently); the bundled-BLAS build (variant v1b) is compared bit for bit on all data. Content preservation inside a move is observed through the outputs, not modelled per byte."),
+ "C08": dict(cat="model_checking", ref="6/C08", tech="TLC model checking of SluMem over every workspace length (USER) and failure position (SYSTEM) + exhaustive lwork sweep of the real ?gssvx with guard zones, every allocator event validated by TLC",
+   text="Design level: TLC explores the transcribed allocator for every lwork in steps of one word, both alignments, all demand sequences, and shows StackSane/RegionsOK/WritesInside/ShortageReported/ExpandGrows (the pre-fix model, cfg MC_Mem_legacy, exhibits the violations that were then reproduced). Conformance: for small systems with fill estimates 1..8 the real driver is run for EVERY workspace length from one word to beyond the requirement x both alignments, each in its own process between guard zones; TLC validates each allocator event (stack accounting, regions, cursors, growth) and the outcome (guards intact; info > n or factors identical to the reference run; no crash/hang).",
+   note="Trusted: guard zones (64 KiB each side) as the observer of out-of-workspace writes; SYSTEM-model failure injection through the USER_MALLOC seam. Four genuine defects found here were repaired by fix: commits (known_findings.jsonl)."),
 }
 
 def main():
